@@ -955,6 +955,7 @@ def run_one(comp: Any, case: dict[str, Any], tmpdir: str, watchdog: int) -> dict
         res['w'].append(dict(
             kind='%s:raised:%s:%s' % (case['part'], raised['exc'], raised['site']),
             exc=raised['exc'], msg=raised['msg'], site=raised['site'], frames=raised['frames'],
+            text=raised['text'],
         ))
         return res
     fn = eval_foreach if case['part'] == 'foreach' else eval_control
